@@ -1044,6 +1044,10 @@ impl Engine for C07 {
                 3, 1, 1, 3, 3, true, "base",
             ),
         ];
+        // every constant kind of the implementation (a special case for one of them, e.g. a
+        // kind that "matches everything", shows as a wrong verdict or as order dependence)
+        ps.push(systems_phase("systems E=1 V=2 C=11 (every constant kind) depth<=1 size<=2", 2, 11, 1, 2, 1, false, "all"));
+        ps.push(systems_phase("systems E=3 V=1 C=11 (every constant kind) depth 0", 1, 11, 0, 1, 3, false, "all"));
         ps.extend(crate::props::c07_programs::phases(tier));
         if tier == Tier::Thorough {
             ps.push(systems_phase("systems E=2 V=2 depth<=1", 2, 3, 1, 4, 2, false, "all"));
